@@ -10,7 +10,11 @@ import AptMirror.Model.Rate
 
 Model: `Model/Rate.lean`.  The bucket is the *contract* of `aiolimiter.AsyncLimiter(60·limit_rate, 60)`; its
 internals (waiter wake-up order, timers) are exercised by the harness under a virtual clock, not modelled —
-the "not throttled below the limit" half is therefore **partial** (checked, not proved).
+the "not throttled below the limit" half is proved at the level of that contract: a limiter that lets a waiter through as soon
+as the contract allows (`Bucket.earliest`) never delays a request beyond necessity (`C19_earliest_is_first`), a request is only
+ever delayed into a bucket that is then full to within one tick's worth (`C19_delayed_only_when_full`), and therefore a
+consumer that is kept waiting receives at least `limit_rate·T − limit_rate` over any span `T` (`C19_not_throttled`).  That the
+real AsyncLimiter wakes its waiters that promptly is observed by the harness under the virtual clock, not proved (**partial**).
 -/
 namespace AptMirror
 namespace Rate
@@ -113,10 +117,152 @@ theorem C19_not_aborted (startup slowRate passed count : Nat) (h : passed < star
   | false => rfl
   | true => have := (C19_slow_iff _ _ _ _).mp hs; omega
 
+
+/-! ### not throttled below the limit -/
+
+theorem ceil_spec (x r : Nat) (hr : 0 < r) : x ≤ r * ((x + r - 1) / r) ∧ (0 < x → r * ((x + r - 1) / r - 1) < x) := by
+  have h1 := Nat.div_add_mod (x + r - 1) r
+  have h2 := Nat.mod_lt (x + r - 1) hr
+  constructor
+  · omega
+  · intro hx
+    have hq : 0 < (x + r - 1) / r := Nat.div_pos (by omega) hr
+    have h3 : r * ((x + r - 1) / r - 1) = r * ((x + r - 1) / r) - r := by
+      rw [Nat.mul_sub_one]
+    omega
+
+/-- **C19 (the earliest admissible time is admissible, and nothing earlier is).** For a request that fits the bucket at all
+    (`a ≤ cap`), `earliest` is a time at which the contract grants it, and at every time between the request and that moment
+    the contract refuses it: a limiter that wakes its waiter as soon as there is room delays no longer than the configured
+    rate demands. -/
+theorem C19_earliest_is_first (b : Bucket) (t a : Nat) (hr : 0 < b.r) (ha : a ≤ b.cap) (ht : b.last ≤ t) :
+    (b.grant (b.earliest t a) a).isSome = true ∧
+    ∀ t'', t ≤ t'' → t'' < b.earliest t a → b.grant t'' a = none := by
+  obtain ⟨c1, c2⟩ := ceil_spec (b.level + a - b.cap) b.r hr
+  have hq := c1
+  generalize hQ : (b.level + a - b.cap + b.r - 1) / b.r = q at c1 c2 hq
+  constructor
+  · unfold Bucket.grant Bucket.earliest Bucket.leak
+    rw [hQ]
+    have h1 : b.last ≤ max t (b.last + q) := by omega
+    have hmono : b.r * q ≤ b.r * (max t (b.last + q) - b.last) := Nat.mul_le_mul_left _ (by omega)
+    have h2 : b.level - b.r * (max t (b.last + q) - b.last) + a ≤ b.cap := by omega
+    simp [h1, h2]
+  · intro t'' h1 h2
+    unfold Bucket.earliest at h2
+    rw [hQ] at h2
+    have hq1 : 0 < q := by omega
+    have hx : 0 < b.level + a - b.cap := by
+      rcases Nat.eq_zero_or_pos (b.level + a - b.cap) with h0 | h0
+      · rw [h0] at hQ
+        have : (0 + b.r - 1) / b.r = 0 := Nat.div_eq_of_lt (by omega)
+        omega
+      · exact h0
+    have c3 := c2 hx
+    have hmono : b.r * (t'' - b.last) ≤ b.r * (q - 1) := Nat.mul_le_mul_left _ (by omega)
+    unfold Bucket.grant Bucket.leak
+    have : ¬ (b.last ≤ t'' ∧ b.level - b.r * (t'' - b.last) + a ≤ b.cap) := by omega
+    simp [this]
+
+/-- **C19 (a request is delayed only into a full bucket).** If the earliest admissible time is later than the request, the
+    bucket right after the grant is full to within one tick's leak: the limiter is then passing bytes at the configured rate,
+    not below it.  (For chunks of at most `cap − r`; with aiolimiter's `cap = 60·r` that is any chunk up to 59 s worth.) -/
+theorem C19_delayed_only_when_full (b b' : Bucket) (t a : Nat) (hr : 0 < b.r) (ha : a + b.r ≤ b.cap) (ht : b.last ≤ t)
+    (hd : t < b.earliest t a) (hg : b.grant (b.earliest t a) a = some b') :
+    b.cap < b'.level + b.r ∧ b'.level ≤ b.cap ∧
+    b'.level + b.r * (b'.last - b.last) = b.level + a := by
+  obtain ⟨c1, c2⟩ := ceil_spec (b.level + a - b.cap) b.r hr
+  unfold Bucket.earliest at hd hg
+  generalize hQ : (b.level + a - b.cap + b.r - 1) / b.r = q at c1 c2 hd hg
+  have he : max t (b.last + q) = b.last + q := by omega
+  rw [he] at hg
+  have hq1 : 0 < q := by omega
+  have hx : 0 < b.level + a - b.cap := by
+    rcases Nat.eq_zero_or_pos (b.level + a - b.cap) with h0 | h0
+    · rw [h0] at hQ
+      have : (0 + b.r - 1) / b.r = 0 := Nat.div_eq_of_lt (by omega)
+      omega
+    · exact h0
+  have c3 := c2 hx
+  have hmul : b.r * (q - 1) = b.r * q - b.r := Nat.mul_sub_one _ _
+  unfold Bucket.grant Bucket.leak at hg
+  have hsub : b.last + q - b.last = q := by omega
+  rw [hsub] at hg
+  split at hg
+  · cases hg
+    simp only
+    rw [hsub]
+    refine ⟨by omega, by omega, by omega⟩
+  · cases hg
+
+/-- a run in which every request is issued when the previous one was granted (the upstream always has the next chunk ready)
+    and every one of them has to wait -/
+def Backlogged : Bucket → List Nat → Option Bucket
+  | b, [] => some b
+  | b, a :: rest =>
+    if b.last < b.earliest b.last a then
+      match b.grant (b.earliest b.last a) a with
+      | some b' => Backlogged b' rest
+      | none => none
+    else none
+
+/-- **C19 (not throttled below the limit).** Over any stretch in which a consumer is kept waiting by the limiter (each chunk
+    requested as soon as the previous one was let through, each delayed), starting right after a delayed grant, the bytes let
+    through exceed `r·T − r`, `T` the length of the stretch: the limiter's long-run throughput is the configured rate, it does
+    not throttle below it.  Together with `C19_bucket_bound` the rate is pinned from both sides. -/
+theorem backlogged_exact (b b' : Bucket) (as : List Nat) (hr : 0 < b.r) (hfull : b.cap < b.level + b.r)
+    (hlev : b.level ≤ b.cap) (hsmall : ∀ a ∈ as, a + b.r ≤ b.cap) (h : Backlogged b as = some b') :
+    b'.r = b.r ∧ b'.cap = b.cap ∧ b.last ≤ b'.last ∧ b'.level + b.r * (b'.last - b.last) = b.level + as.sum ∧
+    b.cap < b'.level + b.r ∧ b'.level ≤ b.cap := by
+  induction as generalizing b with
+  | nil =>
+    simp only [Backlogged, Option.some.injEq] at h
+    subst h
+    simp [hfull, hlev]
+  | cons a rest ih =>
+    simp only [Backlogged] at h
+    split at h
+    · rename_i hd
+      split at h
+      · rename_i b1 hg
+        obtain ⟨f1, f2, f3⟩ := C19_delayed_only_when_full b b1 b.last a hr (hsmall a List.mem_cons_self) (Nat.le_refl _) hd hg
+        have hr1 : b1.r = b.r := by
+          unfold Bucket.grant at hg; split at hg <;> cases hg; rfl
+        have hc1 : b1.cap = b.cap := by
+          unfold Bucket.grant at hg; split at hg <;> cases hg; rfl
+        have hl1 : b.last ≤ b1.last := by
+          unfold Bucket.grant at hg; split at hg
+          · rename_i hh; cases hg; exact hh.1
+          · cases hg
+        obtain ⟨g1, g2, g3, g4, g5, g6⟩ := ih b1 (by rw [hr1]; exact hr) (by rw [hr1, hc1]; exact f1) (by rw [hc1]; exact f2)
+          (fun x hx => by rw [hr1, hc1]; exact hsmall x (List.mem_cons_of_mem _ hx)) h
+        rw [hr1] at g4 g5
+        rw [hc1] at g5 g6
+        refine ⟨by rw [g1, hr1], by rw [g2, hc1], by omega, ?_, g5, g6⟩
+        simp only [List.sum_cons]
+        have hsplit : b.r * (b'.last - b.last) = b.r * (b1.last - b.last) + b.r * (b'.last - b1.last) := by
+          rw [← Nat.mul_add]; congr 1; omega
+        omega
+      · cases h
+    · cases h
+
+/-- **C19 (not throttled below the limit).** Over any stretch in which a consumer is kept waiting by the limiter (each chunk
+    requested as soon as the previous one was let through, each delayed), starting right after a delayed grant, the bytes let
+    through exceed `r·T − r`, `T` the length of the stretch (exactly: they equal `r·T` up to the difference of two bucket levels
+    that both lie within `r` of the capacity): the limiter's long-run throughput is the configured rate, it does not throttle
+    below it.  Together with `C19_bucket_bound` the rate is pinned from both sides. -/
+theorem C19_not_throttled (b b' : Bucket) (as : List Nat) (hr : 0 < b.r) (hfull : b.cap < b.level + b.r)
+    (hlev : b.level ≤ b.cap) (hsmall : ∀ a ∈ as, a + b.r ≤ b.cap) (h : Backlogged b as = some b') :
+    b.last ≤ b'.last ∧ b.r * (b'.last - b.last) < as.sum + b.r ∧ as.sum < b.r * (b'.last - b.last) + b.r := by
+  obtain ⟨_, _, g3, g4, g5, g6⟩ := backlogged_exact b b' as hr hfull hlev hsmall h
+  refine ⟨g3, by omega, by omega⟩
+
 /-! ### non-vacuity -/
 example : ({ r := 2, cap := 120, level := 0, last := 0 } : Bucket).run [(0, 100), (5, 30), (50, 90)] = some { r := 2, cap := 120, level := 120, last := 50 } := by decide
 example : ({ r := 2, cap := 120, level := 0, last := 0 } : Bucket).run [(0, 100), (5, 31)] = none := by decide
 example : charge 60 150 = [60, 60, 30] ∧ slow 15 100 20 1999 = true ∧ slow 15 100 14 0 = false := by decide
+example : ({ r := 2, cap := 120, level := 119, last := 10 } : Bucket).earliest 10 50 = 35 := by decide
+example : (Backlogged { r := 2, cap := 120, level := 119, last := 10 } [50, 30, 7]).map (fun b => (b.level, b.last)) = some (120, 53) := by decide
 
 end Rate
 end AptMirror
